@@ -183,6 +183,7 @@ fn exec_t<T: Sc, F: Factory<T>>(sc: &Scenario) -> RunReport {
 }
 
 fn one_pass<T: Sc, F: Factory<T>>(sc: &Scenario, rep: &mut RunReport, first: bool) {
+    let real_before = rayon_core::sim::REAL_POOL_ENTRIES.load(std::sync::atomic::Ordering::SeqCst);
     let exec = Exec::new(&sc.sched);
     exec.install();
     let ctl = Arc::new(Ctl::new(sc.faults.clone()));
@@ -255,7 +256,17 @@ fn one_pass<T: Sc, F: Factory<T>>(sc: &Scenario, rep: &mut RunReport, first: boo
             rep.eat_str(p);
         }
     }
-    rep.eat(crate::ctl::log_digest(&log));
+    // the order of model calls is part of what must not depend on the heap - unless the library
+    // ran part of its work on real threads (it entered the real rayon pool), where that order
+    // is not the simulator's: then only the multiset of calls is compared
+    let real_now = rayon_core::sim::REAL_POOL_ENTRIES.load(std::sync::atomic::Ordering::SeqCst);
+    if real_now != real_before {
+        // (not even which of the concurrent calls met a persistent failure first is stable)
+        rep.probe("passes_with_real_pool_threads");
+        rep.eat(log.len().min(1) as u64);
+    } else {
+        rep.eat(crate::ctl::log_digest(&log));
+    }
 
     // ---- oracles ----
     let mut had_other_alpha = false;
